@@ -7,11 +7,18 @@
 //!   gffset seqid|attr   -> the 256 single-byte strings pushed through the real writer
 //!   gtf    seqid source type start end score strand phase attrs  -> "W=..|R=.."
 //!   bed    n name start end nm score strand others                 -> "W=..|R=.."
+//!   bedfile n rec rec ...  multi-line BED file with mixed column counts read into ONE reused
+//!                          Record<N> and into fresh ones (rec = bed fields joined by ' ')
+//!                          -> "W=<hex file>|R=<view>/<owned>;..." (shared/c18_bedrec.rs)
+//!   bedraw n <hex text> fuel   arbitrary BED text, one reused Record<N>, going on after errors
+//!                          -> "<result>/<view>/<owned>;..." per read_record call
+//!   gffline <hex text>     arbitrary GFF3 text: read_line with one reused Line, Line::kind,
+//!                          as_directive/as_comment/as_record, line_bufs(), record_bufs()
+//!                          -> "L=<lazy lines>|O=<owned lines>|B=<record_bufs records>"
+//!   gffdir key kind payload    directive through the real writer -> "W=<hex line>|<lines read back>"
+//!   gffcom <hex text>      comment through Writer::write_line -> "W=<hex line>|<lines read back>"
 //! Implementation-only oracles:
-//!   gffdir key kind payload      directive write/read
 //!   bedt   n ... typed other fields (Int64/UInt64/Float64/Character)
-//!   bedfile n rec rec ...        multi-line BED file with mixed column counts read into ONE reused
-//!                                Record<N> and into fresh ones (rec = bed fields joined by ' ')
 //!   gfffile rec rec ... / gtffile rec rec ...   multi-line files (blank lines, comments, directives
 //!                                in between) read with one reused Line and with record_bufs()
 //!
